@@ -387,6 +387,7 @@ pub fn baseline(seed: u64, opts: &GenOpts) -> (SupplyTrace, Plan) {
         in_place: false,
         read_eio: None,
         alt_dir_on_odd_reps: false,
+        concurrent: 0,
     };
     (t, Plan { owners, funcs, outsiders, now: now.min(exp) })
 }
